@@ -125,6 +125,8 @@ def make_case(prop, seed, i, tier):
         spec["sim"]["max_time"] = 60
     else:
         spec = G.gen_random(rng, G.profile(facility_rich=rng.random() < 0.35, max_time=60, ensure_worker=0.9))
+        if rng.random() < 0.1:
+            G.add_idle_parts(rng, spec)
     if rng.random() < 0.5:
         # JSON variant needs models that use only saved settings: default rules, no main workplace,
         # no conveyor inputs (decided at run time anyway; this only raises the share that qualifies)
